@@ -550,6 +550,14 @@ def _control_reads(ctx):
 _TC = "flumine/controls/tradingcontrols.py"
 _T = "flumine/execution/transaction.py"
 MUTANTS = [
+    dict(id="c01-sp-liability-overwritten", file="flumine/markets/blotter.py", func="Blotter.get_exposures",
+         old="                    moc_lose_liability -= order.order_type.liability\n",
+         new="                    moc_lose_liability = -order.order_type.liability\n", expect=["R8"],
+         why="a second starting-price back replaces the first instead of adding to it"),
+    dict(id="c01-replacement-priced-from-replaced-order", file="flumine/execution/betfairexecution.py", func="BetfairExecution.execute_replace",
+         old="                            instruction_report.place_instruction_reports.instruction.limit_order.price,\n",
+         new="                            order.update_data.get(\"new_price\", order.order_type.price),\n", expect=["R9"],
+         why="update_data was cleared by the cancel half: the replacement keeps the old price in the exposure figures"),
     dict(id="c01-place-before-validate", file=_T, func="Transaction.place_order",
          old="        order.update_client(self._client)\n",
          new="        order.update_client(self._client)\n        self._pending_place.append((order, market_version))\n        self._pending_orders = True\n",
